@@ -98,7 +98,7 @@ def handleBits (kind : String) (ws : List String) : Option String := do
       some (out3s (cylinderOut envF p1 p2 r c))
   | "b.cone" => do
       let (tip, xs) ← mk3 xs; let (base, xs) ← mk3 xs; let (r, xs) ← mk1 xs; let (c, _) ← mk3 xs
-      some (out3s (coneOutOld envF tip base r c))
+      some (out3s (coneOut envF tip base r c))
   | "b.torus" => do
       let (ce, xs) ← mk3 xs; let (ax, xs) ← mk3 xs; let (ro, xs) ← mk1 xs; let (ri, xs) ← mk1 xs
       let (c, _) ← mk3 xs
